@@ -60,9 +60,47 @@ func builtinIntrinsics() map[string]intrinsic {
 		arr, n := p.newInputBytes("string", max)
 		return &Str{Arr: arr, Off: p.st.BV(64, 0), Len: n, Max: max}
 	}
+	// verifStringN(n) / verifBytesN(n): arbitrary content of concrete length n
+	m["@verifStringN"] = func(p *Path, fr *frame, pos token.Pos, args []Value) Value {
+		n := p.concInt(args[0], "verifStringN length")
+		arr, ln := p.newInputBytes("string", n)
+		p.assume(p.st.Eq(ln, p.st.BV(64, uint64(n))))
+		if n == 0 {
+			return p.emptyStr
+		}
+		bs := make([]*Term, n)
+		for i := range bs {
+			bs[i] = p.st.Select(arr, p.st.BV(64, uint64(i)))
+		}
+		return &Str{Sym: bs}
+	}
+	m["@verifBytesN"] = func(p *Path, fr *frame, pos token.Pos, args []Value) Value {
+		n := p.concInt(args[0], "verifBytesN length")
+		arr, ln := p.newInputBytes("bytes", n)
+		p.assume(p.st.Eq(ln, p.st.BV(64, uint64(n))))
+		out := make([]Value, n)
+		for i := range out {
+			out[i] = p.st.Select(arr, p.st.BV(64, uint64(i)))
+		}
+		return out
+	}
 	// verifLen(max): a length 0..max, concretised (one path per value)
 	m["@verifLen"] = func(p *Path, fr *frame, pos token.Pos, args []Value) Value {
 		max := p.concInt(args[0], "verifLen bound")
+		// optional global size budget B: the sum of all verifLen results on a path is at most B
+		if b, ok := p.eng.cfg.Params["B"]; ok {
+			if !p.budgetInit {
+				p.budgetInit, p.budget = true, b
+			}
+			if max > p.budget {
+				max = p.budget
+			}
+			t := p.newInputScalar("u64", 64)
+			p.assume(p.st.Cmp(OpUle, t, p.st.BV(64, uint64(max))))
+			k := p.concretize(t, max, "verifLen")
+			p.budget -= k
+			return p.st.BV(64, uint64(k))
+		}
 		t := p.newInputScalar("u64", 64)
 		p.assume(p.st.Cmp(OpUle, t, p.st.BV(64, uint64(max))))
 		k := p.concretize(t, max, "verifLen")
@@ -364,13 +402,69 @@ func builtinIntrinsics() map[string]intrinsic {
 		}
 		return out
 	}
+	// ---- sort: insertion sort driven by the real comparison (assumption: the standard sort is a correct sort) ----
+	insertion := func(p *Path, n int, less func(i, j int) bool, swap func(i, j int)) {
+		p.eng.noteStub(p.harness, "sort.*: modelled as an insertion sort calling the real less function (any correct sort gives the same result for distinct keys)")
+		for i := 1; i < n; i++ {
+			for j := i; j > 0 && less(j, j-1); j-- {
+				swap(j, j-1)
+			}
+		}
+	}
+	sortSlice := func(p *Path, fr *frame, pos token.Pos, args []Value) Value {
+		itf := args[0].(Iface)
+		sl, ok := itf.V.([]Value)
+		if !ok {
+			p.unsupported("sort.Slice on %T", itf.V)
+		}
+		insertion(p, len(sl), func(i, j int) bool {
+			r := p.call(fr, pos, args[1], []Value{p.st.BV(64, uint64(i)), p.st.BV(64, uint64(j))})
+			return p.decide(r.(*Term))
+		}, func(i, j int) { sl[i], sl[j] = sl[j], sl[i] })
+		return nil
+	}
+	m["sort.Slice"] = sortSlice
+	m["sort.SliceStable"] = sortSlice
+	m["sort.Strings"] = func(p *Path, fr *frame, pos token.Pos, args []Value) Value {
+		sl, _ := args[0].([]Value)
+		insertion(p, len(sl), func(i, j int) bool { return p.decide(p.strLess(sl[i].(*Str), sl[j].(*Str))) }, func(i, j int) { sl[i], sl[j] = sl[j], sl[i] })
+		return nil
+	}
+	m["sort.Ints"] = func(p *Path, fr *frame, pos token.Pos, args []Value) Value {
+		sl, _ := args[0].([]Value)
+		insertion(p, len(sl), func(i, j int) bool { return p.decide(p.st.Cmp(OpSlt, sl[i].(*Term), sl[j].(*Term))) }, func(i, j int) { sl[i], sl[j] = sl[j], sl[i] })
+		return nil
+	}
+	sortIface := func(p *Path, fr *frame, pos token.Pos, args []Value) Value {
+		itf := args[0].(Iface)
+		meth := func(name string) *ssa.Function {
+			ms := p.eng.prog.MethodSets.MethodSet(itf.T)
+			for i := 0; i < ms.Len(); i++ {
+				if ms.At(i).Obj().Name() == name {
+					return p.eng.prog.MethodValue(ms.At(i))
+				}
+			}
+			p.unsupported("sort.Sort: no method %s on %v", name, itf.T)
+			return nil
+		}
+		n := p.concretize(p.call(fr, pos, meth("Len"), []Value{itf.V}).(*Term), 64, "sort.Sort Len")
+		lessF, swapF := meth("Less"), meth("Swap")
+		insertion(p, n, func(i, j int) bool {
+			return p.decide(p.call(fr, pos, lessF, []Value{itf.V, p.st.BV(64, uint64(i)), p.st.BV(64, uint64(j))}).(*Term))
+		}, func(i, j int) {
+			p.call(fr, pos, swapF, []Value{itf.V, p.st.BV(64, uint64(i)), p.st.BV(64, uint64(j))})
+		})
+		return nil
+	}
+	m["sort.Sort"] = sortIface
+	m["sort.Stable"] = sortIface
 	m["internal/abi.NoEscape"] = id
 	m["internal/abi.Escape"] = id
 	m["internal/race.Enabled"] = nop
 	m["internal/cpu.Initialize"] = nop
 	m["time.Now"] = func(p *Path, fr *frame, pos token.Pos, args []Value) Value {
 		// arbitrary non-decreasing instant: wall=0, ext = symbolic monotone counter, loc=nil
-		p.eng.noteStub("time.Now: arbitrary non-decreasing instants")
+		p.eng.noteStub(p.harness, "time.Now: arbitrary non-decreasing instants")
 		tt := p.eng.pkgByPath["time"].Type("Time").Type()
 		v := p.zero(tt).(Struct)
 		nxt := p.fresh("time", 64)
@@ -633,7 +727,7 @@ func (p *Path) sprintf(fr *frame, pos token.Pos, format Value, argv Value) *Str 
 	if allConc {
 		return mkStr(fmt.Sprintf(f, native...))
 	}
-	p.eng.noteStub("fmt.Sprintf/Errorf with symbolic operands: text is opaque (only error-ness and wrapping are modelled)")
+	p.eng.noteStub(p.harness, "fmt.Sprintf/Errorf with symbolic operands: text is opaque (only error-ness and wrapping are modelled)")
 	return mkStr("<fmt@" + p.pos(pos) + ":" + f + ">")
 }
 
@@ -651,7 +745,7 @@ func intrSprint(p *Path, fr *frame, pos token.Pos, args []Value) Value {
 
 func intrFprintf(p *Path, fr *frame, pos token.Pos, args []Value) Value {
 	// output formatting is not the subject: write nothing, report success
-	p.eng.noteStub("fmt.Fprint*: output dropped")
+	p.eng.noteStub(p.harness, "fmt.Fprint*: output dropped")
 	return Tuple{p.st.BV(64, 0), Iface{}}
 }
 
